@@ -200,7 +200,7 @@ def boundary_fees(rng, total_in, fixed, k):
 
 
 def distribute_specs(rng, tier):
-    n = 700 if tier == "quick" else 15000
+    n = 1000 if tier == "quick" else 15000
     for _ in range(n):
         t = gen_tx_spec(rng)
         tot = sum(u[0] for u in t["unspents"] if u is not None)
@@ -441,7 +441,7 @@ def impl_validate(spec, db):
 
 
 def validate_scenarios(rng, tier):
-    reps = 12 if tier == "quick" else 250
+    reps = 40 if tier == "quick" else 400
     for kind in KINDS:
         for _ in range(reps):
             yield gen_validate(rng, kind)
@@ -517,7 +517,7 @@ def model_cases(rng, tier):
         yield Case("total_out " + a_tx(t), (lambda t=t: call13(lambda: mk_tx(t).total_out())))
         yield Case("total_in " + a_tx(t), (lambda t=t: call13(lambda: mk_tx(t).total_in())))
         yield Case("fee " + a_tx(t), (lambda t=t: call13(lambda: mk_tx(t).fee())))
-    for _ in range(500 if tier == "quick" else 12000):
+    for _ in range(800 if tier == "quick" else 12000):
         spec = gen_create_spec(rng)
         for f in create_fees(rng, spec):
             yield Case(create_line(spec, f), (lambda spec=spec, f=f: call13(impl_create, spec, f)), meta={"spec": spec, "fee": f})
